@@ -10,10 +10,10 @@ func init() { drivers["C13"] = checkC13 }
 func installItemsEqContract(ex *Exec) {
 	ex.installIRIEqualsHook()
 	ex.hooks["IsNil"] = func(ex *Exec, st *State, f *ssa.Function, a []Value) (Value, bool) {
-		return ex.isNilSpec(a[0].(*IfaceVal)), true
+		return ex.isNilSpec(asItemVal(a[0])), true
 	}
 	ex.hooks["ItemsEqual"] = func(ex *Exec, st *State, f *ssa.Function, a []Value) (Value, bool) {
-		return App("itemsEq", SBool, ex.abstractItem(a[0].(*IfaceVal)), ex.abstractItem(a[1].(*IfaceVal))), true
+		return App("itemsEq", SBool, ex.abstractItem(asItemVal(a[0])), ex.abstractItem(asItemVal(a[1]))), true
 	}
 }
 
